@@ -127,9 +127,13 @@ pub fn wire(t: &ohkami::testing::TestingOhkami, method: &str, target: &[u8], hea
     for (k, v) in headers { raw.extend_from_slice(k); raw.extend_from_slice(b": "); raw.extend_from_slice(v); raw.extend_from_slice(b"\r\n"); }
     if !body.is_empty() { raw.extend_from_slice(format!("Content-Length: {}\r\n", body.len()).as_bytes()); }
     raw.extend_from_slice(b"\r\n"); raw.extend_from_slice(body);
-    rt().block_on(async {
-        let mut req = Request::__verif_init();
-        let mut req = std::pin::Pin::new(&mut req);
+    // one request object per thread, cleared before each read, as the session loop keeps one per connection: what an earlier request left
+    // in it (path, query, headers, payload, context) is there to be found by the next
+    thread_local! { static REQ: std::cell::RefCell<Request> = std::cell::RefCell::new(Request::__verif_init()); }
+    REQ.with(|cell| rt().block_on(async {
+        let mut guard = cell.borrow_mut();
+        guard.__verif_clear();
+        let mut req = std::pin::Pin::new(&mut *guard);
         let mut conn = Script::new(vec![raw], true);
         let res = match req.as_mut().__verif_read(&mut conn).await {
             Ok(Some(())) => t.__verif_handle(req.get_mut()).await,
@@ -139,5 +143,5 @@ pub fn wire(t: &ohkami::testing::TestingOhkami, method: &str, target: &[u8], hea
         let mut wire: Vec<u8> = Vec::new();
         res.__verif_send(&mut wire).await;
         Ok(wire)
-    })
+    }))
 }
